@@ -15,7 +15,7 @@ import svm
 
 PROPERTY = 'C16'
 RULE = ('Hypothesis-generated function bodies (ordinary / you / defeat flavour; int, bool, byte, string or empty return type) '
-        'from a control-flow grammar: sequences, if/else chains, while with literal-true, foldable-true and run-time '
+        'from a control-flow grammar: empty bodies, sequences, if/else chains, while with literal-true, foldable-true and run-time '
         'conditions, for(;;), counted for loops, break/continue at any depth including inside try bodies, handlers and '
         'preempt blocks, returns, !is_defeat(), !truth_is_defeat, calls of user defeat functions (as statements and inside '
         'expressions), all_is_win(), all_is_broken(), user overloads that share those names but return, try/undo, try/stop, '
@@ -229,8 +229,9 @@ def function_case(draw):
     flavor = draw(st.sampled_from(['', '', '@', '@', '!']))
     ret = draw(st.sampled_from([INT, INT, BOOL, BYTE, STRING, EMPTY, EMPTY]))
     g = G(draw, flavor, ret)
-    body = g.block(draw(st.integers(1, 6)))
-    if draw(st.integers(0, 2)) == 0:
+    nstm = draw(st.integers(0, 6))      # 0: a literally empty body (only legal for empty functions; implicit return)
+    body = g.block(nstm)
+    if nstm and draw(st.integers(0, 2)) == 0:
         body.stmts.append(g.ret_stmt())
     name = flavor + 'fut'
     params = [Param(INT, False, 'a'), Param(INT, False, 'b')]
